@@ -45,7 +45,8 @@ type jwkServer struct {
 	mu       sync.Mutex
 	keys     map[string]*rsa.PrivateKey // published kid -> key
 	srv      *httptest.Server
-	broken   string        // "" | "garbage" | "500" | "badkey" | "503json" | "404json": what the endpoint answers instead of the key set
+	broken   string        // "" | "garbage" | "500" | "503json" | "404json": what the endpoint answers instead of the key set
+	extra    string        // "" | "okp" | "badrsa" | "both": entries published next to the RSA keys that the hook cannot use
 	slow     time.Duration // answer only after this long (or when the client has gone away)
 	inflight int32
 }
@@ -84,19 +85,26 @@ func (s *jwkServer) handler(w http.ResponseWriter, r *http.Request) {
 		}
 		_, _ = w.Write([]byte(`{"error":"service unavailable","keys":[]}`))
 		return
-	case "badkey":
-		_, _ = w.Write([]byte(`{"keys":[{"kty":"RSA","kid":"k0","n":"!!!","e":"AQAB"}]}`))
-		return
 	}
 	type jwk struct {
 		Kty string `json:"kty"`
 		Kid string `json:"kid"`
-		N   string `json:"n"`
-		E   string `json:"e"`
-		Alg string `json:"alg"`
+		N   string `json:"n,omitempty"`
+		E   string `json:"e,omitempty"`
+		Crv string `json:"crv,omitempty"`
+		X   string `json:"x,omitempty"`
+		Alg string `json:"alg,omitempty"`
 		Use string `json:"use"`
 	}
 	var ks []jwk
+	// a key set may publish keys of other types (RFC 8037 Ed25519 here) or an entry that does not decode: those are
+	// not keys an RS256 token can be verified under; the RSA keys published next to them are (D34)
+	if s.extra == "okp" || s.extra == "both" {
+		ks = append(ks, jwk{Kty: "OKP", Kid: "kx", Crv: "Ed25519", X: "11qYAYKxCrfVS_7TyWQHOg7hcvPapiMlrwIaaPcHURo", Alg: "EdDSA", Use: "sig"})
+	}
+	if s.extra == "badrsa" || s.extra == "both" {
+		ks = append(ks, jwk{Kty: "RSA", Kid: "kbad", N: "!!!", E: "AQAB", Alg: "RS256", Use: "sig"})
+	}
 	for kid, k := range s.keys {
 		ks = append(ks, jwk{Kty: "RSA", Kid: kid, N: b64(k.N.Bytes()), E: b64(big.NewInt(int64(k.E)).Bytes()), Alg: "RS256", Use: "sig"})
 	}
@@ -418,7 +426,7 @@ func runC15(c *Ctx) {
 		case 30, 31:
 			// a refresh that fails (endpoint down, garbage, undecodable key) must leave the installed keys alone
 			js.mu.Lock()
-			js.broken = []string{"garbage", "500", "badkey", "503json", "404json"}[r.Intn(5)]
+			js.broken = []string{"garbage", "500", "503json", "404json"}[r.Intn(4)]
 			js.mu.Unlock()
 			ferr := jwthook.VerifUpdateKeys(h)
 			js.mu.Lock()
@@ -495,9 +503,12 @@ func runC15(c *Ctx) {
 				published = map[string]int{"k0": 1, "k1": 0, "k2": 2} // kids re-bound to other keys
 			}
 			publish()
-			if err := jwthook.VerifUpdateKeys(h); err != nil {
-				panic(err)
-			}
+			js.mu.Lock()
+			js.extra = []string{"", "", "okp", "badrsa", "both"}[r.Intn(5)]
+			extra := js.extra
+			js.mu.Unlock()
+			rerr := jwthook.VerifUpdateKeys(h)
+			c.Emit("jwt.rotation extra="+map[string]string{"": "-"}[extra]+extra+" keys="+keysArg(), map[bool]string{true: "published", false: "REFRESH-FAILED"}[rerr == nil])
 			ts.signWith = r.Intn(3)
 			why = "after-rotation"
 			if _, ok := published[fmt.Sprintf("k%d", ts.signWith)]; !ok {
